@@ -172,6 +172,30 @@ CHECKS = {
         note="Trusted: synthetic subclasses of the real StateMachineState; scikit-learn's GridSearchCV as used by the library.",
         technique="TLA+ spec (Workflow.tla) exhaustive over digraphs + spec->code replay of search; code->spec trace validation of the real workflow",
     ),
+    "C09": dict(
+        category="model_checking",
+        text="Exact part: InvCovValid (symmetric, all principal minors >= 0 over exact rationals) is checked by TLC on every state of "
+             "SetEstimate/Predict/Update behaviours of Formak.tla -- including singular-Jacobian models -- and the behaviours are replayed "
+             "into the Python filter (never refused, values match). Rounding part: seeded randomised histories of up to 200 steps on the "
+             "project's mass/z/v/a model, exactly correlated states, a nonlinear calibrated model, a zero-Jacobian-row model and TLC-drawn "
+             "models are recorded (outcome, validity of input and output covariance) and validated by TLC against the protocol CovGate_Trace.",
+        design_ref="DESIGN.md section 4 C09 / section 6",
+        note="The rounding claim itself is decided by the NumPy projection (relative 1e-9 symmetry / eigenvalue test); TLC checks the exact "
+             "update forms and the protocol. Stated in DESIGN.md section 6 as the weakest property for this technique.",
+        technique="TLA+ spec (Formak.tla invariant InvCovValid, exact) + code->spec trace validation of randomised histories (CovGate_Trace.tla)",
+    ),
+    "C13": dict(
+        category="model_checking",
+        text="Binding.tla gives the abstract result of every keyword / raw-data construction (exhaustive: vectors and covariances over <=3 of 5 "
+             "declared names, stranger and near-miss names, all raw shapes) and these are replayed into named_vector / named_covariance / "
+             "from_dict / from_data. Formak.tla draws, per definition, a bijective renaming whose sort order is unrelated; TLC checks as an "
+             "invariant that the spec's named outputs are invariant, and original, renamed twin and a list/reversed-order presentation are "
+             "replayed into Python and generated C++ (same named outputs). The layouts published by Model, SensorModel, ExtendedKalmanFilter, "
+             "State classes, the probed C++ field rows and the SensorId order must equal the spec's SortNames.",
+        design_ref="DESIGN.md section 4 C13",
+        note="Trusted: Names.tla's code-point order as the definition of 'the library's name order'; C++ via the Eigen stand-in.",
+        technique="TLA+ specs (Binding.tla exhaustive; Formak.tla renaming invariant) + spec->code replay of originals and renamed twins",
+    ),
 }
 
 NOT_YET = "check not built yet (work in progress; see DESIGN.md section 8 build order)"
